@@ -24,7 +24,7 @@ import (
 	"verifh/itx"
 )
 
-const wd = 8 * time.Second
+const wd = 20 * time.Second
 
 func shapeClass(sizes []int) string {
 	if len(sizes) == 0 {
